@@ -623,8 +623,8 @@ impl Check for C09 {
             p
         }));
         let n = match tier {
-            Tier::Quick => 30_000,
-            Tier::Thorough => 1_200_000,
+            Tier::Quick => 150_000,
+            Tier::Thorough => 5_000_000,
         };
         fams.push(Family::new("multi_fault_random", n, false, |_, rng| random_faulty_plan(rng)));
         fams
